@@ -131,6 +131,8 @@ def make_case(tier, seed, index):
             characs.append({"name": "prev", "components": list(base["components"]), "denominator": "alive", "db": False, "setup": 0})
             flat["prev"] = list(base["components"])
     spec["characs"] = characs
+    if rng.random() < 0.3:
+        spec["charac_sheet_order"] = "reversed"  # nested characteristics and denominators are then defined *after* their users
     # data values
     cls = str(rng.choice(["consistent", "consistent", "inconsistent", "negative"]))
     if mode == "one-free":
